@@ -42,12 +42,13 @@ impl NsCase {
             // `k` + `l:m` are different questions that read alike once the two names are glued together
             let twins: Vec<Query> = match &q {
                 Query::Fits(a, b) => {
-                    let glued = format!("{a}:{b}");
-                    glued
-                        .char_indices()
-                        .filter(|(p, c)| *c == ':' && *p != a.len() && *p > 0 && *p + 1 < glued.len())
-                        .map(|(p, _)| Query::Fits(glued[..p].to_string(), glued[p + 1..].to_string()))
-                        .collect()
+                    // (':' of feature keys and '-' of conjuncts are both characters of names)
+                    let mut out = vec![];
+                    for glue in [':', '-'] {
+                        let glued = format!("{a}{glue}{b}");
+                        out.extend(glued.char_indices().filter(|(p, c)| *c == glue && *p != a.len() && *p > 0 && *p + 1 < glued.len()).map(|(p, _)| Query::Fits(glued[..p].to_string(), glued[p + 1..].to_string())));
+                    }
+                    out
                 }
                 _ => vec![],
             };
